@@ -23,24 +23,30 @@ COUNTS = dict(quick=1600, thorough=20000)
 CLASSES = flat.SYNC_CLASSES + flat.ASYNC_CLASSES
 TWO_CLASSES = ['Machine', 'LockedMachine', 'HierarchicalMachine', 'LockedHierarchicalMachine', 'AsyncMachine',
                'HierarchicalAsyncMachine']
-RULE = ('7 of 8 cases: one machine of a predefined class (all 12, round-robin; queued False/True and, for async '
+RULE = ('6 of 8 cases: one machine of a predefined class (all 12, round-robin; queued False/True and, for async '
         'classes, \'model\') built from a random flat configuration (C01 generator, 1-4 states, 1-3 events) of which '
         'a random part of the states/transitions is held back and added by add_states/add_transition operations in '
-        'the history; a universe of 1-4 model objects, optionally one of them the machine itself; a random subset is '
-        'passed to the constructor; histories of 4-16 operations: add_model (registered = "twice", never added, removed; '
-        'initial None / a registered state / [Machine, LockedMachine only] an unregistered state), remove_model (registered), '
-        'add_states, add_transition, trigger (event method or trigger(name); registered, removed and never-added '
-        'objects; known, not-yet-added and unknown events), dispatch. Callbacks are given by name so that each '
-        'object has its own recorder. Sync classes: condition values by position/callback and one raising callback '
-        'position in 15% of the cases; async classes: non-raising, at most one condition per transition, '
-        'ignore_invalid_triggers (the interleaving of different models\' callback lists inside gather is not '
-        'modelled: items of an async dispatch are grouped per model, the order of first items is checked). Every 10th '
-        'case of the plain classes is malformed (unregistered destinations/initial). 1 of 8 cases: two machines '
-        '(flat, locked, hierarchical, async classes) with distinct model_attribute on one object, random '
-        'overlapping/disjoint state and event names, auto_transitions on/off; observed: the owning machine of every '
-        'helper name and the attributes after calling 1-6 helpers. Non-trivial: a dispatch that ran callbacks or '
-        'changed state on >= 2 models, or a membership change followed by a configuration change, or (two machines) '
-        'overlapping state names; distinct by case hash.')
+        'the history; a universe of 1-4 model objects, optionally one of them the machine itself, about a third of '
+        'them FALSY objects (__bool__ False, __len__ 0); a random subset is passed to the constructor, in 30% of the '
+        'cases with one object listed twice; histories of 4-16 operations: add_model of one model (registered = '
+        '"twice", never added, removed; initial None / a registered state / [Machine, LockedMachine only] an '
+        'unregistered state) or ONE add_model call with a list of 2-4 models in which objects may repeat, '
+        'remove_model (registered), add_states, add_transition, trigger (event method or trigger(name); registered, '
+        'removed and never-added objects; known, not-yet-added and unknown events), dispatch. Callbacks are given by '
+        'name so that each object has its own recorder. Sync classes: condition values by position/callback and one '
+        'raising callback position in 15% of the cases; async classes: non-raising, at most one condition per '
+        'transition, ignore_invalid_triggers (the interleaving of different models\' callback lists inside gather is '
+        'not modelled: items of an async dispatch are grouped per model, the order of first items is checked). Every '
+        '10th case of the plain classes is malformed (unregistered destinations/initial). 1 of 8 cases (queue stream): '
+        'a queued Machine / HierarchicalMachine / LockedMachine / GraphMachine with 2-4 models (every third one falsy) '
+        'whose callbacks trigger further events and remove models; a run of remove actions of one callback is ONE '
+        'remove_model([m1, m2, ...]) call with a list while events of these models are pending; compared with '
+        'Queue.drain (C05 model). 1 of 8 cases: two machines (flat, locked, hierarchical, async classes) with distinct '
+        'model_attribute on one object, random overlapping/disjoint state and event names, auto_transitions on/off; '
+        'observed: the owning machine of every helper name and the attributes after calling 1-6 helpers. Non-trivial: '
+        'a dispatch that ran callbacks or changed state on >= 2 models, or a membership change followed by a '
+        'configuration change, or (queue stream) a call that processed >= 2 events or discarded pending ones, or (two '
+        'machines) overlapping state names; distinct by case hash.')
 ASSUMPTIONS = ['remove_model is only called for registered models (an unregistered one raises ValueError in core but '
                'KeyError in the locked / per-model-queue classes: not modelled)',
                'callbacks do not call back into the machine (C05 covers nested triggers and remove_model from callbacks)',
@@ -50,10 +56,16 @@ ASSUMPTIONS = ['remove_model is only called for registered models (an unregister
                'without state attribute are not generated for them (nesting routes these through on_exception/finalize)',
                'graph classes: the machine itself is a model only when passed to the constructor (otherwise '
                'GraphMachine.__init__ binds get_combined_graph as get_graph on itself and add_model(\'self\') raises)',
+               'graph classes: a list add names at most one unregistered object that still owns get_graph, as its last '
+               'element (GraphMachine.add_model raises there and leaves the rest of the list registered without graph; '
+               'the model mirrors the raise, C10_graph_readd_raises, but not the broken machine afterwards)',
+               'queue stream: an event whose callbacks perform >= 16 actions is not compared (nested payload numbering of '
+               'QueueIO would be ambiguous)',
                'garbage collection: the theorem is "no table keeps the key"; the collector is assumed and checked with '
                'weakref + gc.collect() on every class (extra check gc_after_remove)',
                'Python runtime semantics of the recording callables']
-THEOREMS = ['C10_invariant', 'C10_frame', 'C10_dispatch', 'C10_late_model', 'C10_late_model_names', 'C10_add_twice', 'C10_graph_readd_raises', 'C10_graph_readd_example',
+THEOREMS = ['C10_invariant', 'C10_frame', 'C10_dispatch', 'C10_late_model', 'C10_late_model_names', 'C10_add_twice', 'C10_add_twice_list', 'C10_in_call_repetition', 'C10_removed_list_pending',
+            'C10_graph_readd_raises', 'C10_graph_readd_example',
             'C10_removed_tables', 'C10_removed', 'C10_removed_graph_key_refuted', 'C10_two_machines',
             'C10_two_machines_hsm_refuted', 'C10_example']
 
@@ -72,6 +84,8 @@ def qcode(q):
 def gen(rng, i, tier):
     if i % 8 == 7:
         return gen_two(rng, i)
+    if i % 8 == 3:
+        return gen_queue(rng, i, tier)
     cname = CLASSES[(i - i // 8) % len(CLASSES)]
     lk, gr, hs, asy = class_flags(cname)
     queued = rng.choice([False, True] + (['model'] if asy else []))
@@ -130,8 +144,13 @@ def gen(rng, i, tier):
     rng.shuffle(ctor_models)
     if gr and self_id is not None and self_id not in ctor_models:
         self_id = None      # see ASSUMPTIONS: GraphMachine binds get_combined_graph on itself
+    if ctor_models and rng.random() < 0.3:
+        # the same object listed twice in Machine(model=[...])
+        ctor_models.insert(rng.randint(0, len(ctor_models)), rng.choice(ctor_models))
+    falsy = [k for k in range(nuniv) if k != self_id and rng.random() < 0.34]
+    ever = set(ctor_models)          # objects that got helpers (and, in graph classes, get_graph) at some time
     # runtime operations, with a light simulation of membership to keep them meaningful
-    reg = list(ctor_models)
+    reg = list(dict.fromkeys(ctor_models))
     known_events = set(e for e, _ in ctor_trans)
     known_states = set(s for s, _ in m['states'] if s not in held_states)
     ne = len(m['events'])
@@ -189,9 +208,29 @@ def gen(rng, i, tier):
                 ini = rng.choice(sorted(known_states))
             else:
                 ini = ns + 2
-            hist.append(['add_model', mm, ini])
-            if mm not in reg and (ini is None or ini in known_states):
-                reg.append(mm)
+            if rng.random() < 0.45:
+                # ONE add_model call with a list; the same object may be listed more than once
+                ms = [mm] + [rng.randrange(nuniv) for _ in range(rng.randint(1, 2))]
+                if rng.random() < 0.35:
+                    ms.insert(rng.randint(0, len(ms)), rng.choice(ms))
+                if gr:
+                    # graph classes refuse an unregistered object that still has get_graph and then leave the rest of
+                    # the list registered without graph: at most one such object, at the end of the list
+                    stale = [x for x in dict.fromkeys(ms) if x not in reg and x in ever]
+                    ms = [x for x in ms if x not in stale] + stale[:1]
+                hist.append(['add_models', ms, ini])
+                if ini is None or ini in known_states:
+                    for x in ms:
+                        if x not in reg:
+                            reg.append(x)
+                        ever.add(x)
+                elif any(x not in reg for x in ms):
+                    ever.add([x for x in ms if x not in reg][0])
+            else:
+                hist.append(['add_model', mm, ini])
+                ever.add(mm)
+                if mm not in reg and (ini is None or ini in known_states):
+                    reg.append(mm)
         else:
             if not reg:
                 continue
@@ -202,7 +241,40 @@ def gen(rng, i, tier):
     m0['states'] = [(s, d) for s, d in m['states'] if s not in held_states]
     m0['events'] = []
     return dict(kind=0, cls=cname, queued=queued, machine=m0, init=init, env=env, nuniv=nuniv, self_id=self_id,
-                ctor_models=ctor_models, ctor_trans=ctor_trans, history=hist, malformed=malformed)
+                ctor_models=ctor_models, ctor_trans=ctor_trans, history=hist, malformed=malformed, falsy=falsy)
+
+
+def gen_queue(rng, i, tier):
+    """queued machine whose callbacks trigger events and remove models; several remove actions in a row of one
+    callback are ONE remove_model([...]) call with a list (Queue.v removes them one after the other)"""
+    import c05
+    c = c05.gen(rng, i, tier)
+    nm = rng.randint(2, 4)
+    ns = len(c['machine']['states'])
+    ne = len(c['machine']['events'])
+    c['models'] = [(k, rng.randrange(ns)) for k in range(nm)]
+    c['history'] = [(rng.randrange(nm), rng.randrange(ne), 100 + j) for j in range(rng.randint(1, 3))]
+    bypos = {}
+    for p in range(0, 40):
+        x = rng.random()
+        if x < 0.12:
+            # events for some models become pending, then a LIST of models is removed in one call
+            ms = rng.sample(range(nm), rng.randint(2, min(3, nm)))
+            acts = [(0, rng.choice(ms + list(range(nm))), rng.randrange(ne)) for _ in range(rng.randint(1, 3))]
+            acts += [(1, m) for m in ms]
+            bypos[p] = (rng.random() < 0.7, None, acts)
+        elif x < 0.2:
+            acts = [(0, rng.randrange(nm), rng.randrange(ne)) for _ in range(rng.randint(1, 2))]
+            bypos[p] = (rng.random() < 0.7, None, acts)
+        elif x < 0.22:
+            bypos[p] = (True, (3 + p % 2, 1), [])
+        elif x < 0.4:
+            bypos[p] = (rng.random() < 0.7, None, [])
+    c['env']['bypos'] = bypos
+    c['cls'] = ['Machine', 'HierarchicalMachine', 'LockedMachine', 'GraphMachine'][(i // 8) % 4]
+    c['kind'] = 2
+    c['queued'] = True
+    return c
 
 
 def gen_two(rng, i):
@@ -270,6 +342,8 @@ def enc_op(o):
     k = o[0]
     if k == 'add_model':
         return [0, o[1], opt(o[2])]
+    if k == 'add_models':
+        return [6, list(o[1]), opt(o[2])]
     if k == 'remove_model':
         return [1, o[1]]
     if k == 'state':
@@ -282,6 +356,9 @@ def enc_op(o):
 
 
 def enc(case):
+    if case['kind'] == 2:
+        import c05
+        return [2] + c05.enc(case)
     if case['kind'] == 1:
         def ed(d):
             return [d['attr'], d['states'], [[e, t] for e, t in d['events']], bool(d['auto']), d['init']]
@@ -293,7 +370,7 @@ def enc(case):
 
 def _removes_registered_only(case):
     """ASSUMPTIONS[0]: remove_model only for registered models (also keeps shrunk cases inside the assumption)"""
-    reg = list(case['ctor_models'])
+    reg = list(dict.fromkeys(case['ctor_models']))
     states = set(s for s, _ in case['machine']['states'])
     for o in case['history']:
         if o[0] == 'state':
@@ -301,6 +378,11 @@ def _removes_registered_only(case):
         elif o[0] == 'add_model':
             if o[1] not in reg and (o[2] is None or o[2] in states):
                 reg.append(o[1])
+        elif o[0] == 'add_models':
+            if o[2] is None or o[2] in states:
+                for x in o[1]:
+                    if x not in reg:
+                        reg.append(x)
         elif o[0] == 'remove_model':
             if o[1] not in reg:
                 return False
@@ -309,7 +391,7 @@ def _removes_registered_only(case):
 
 
 def in_envelope(case):
-    if case['kind'] == 1:
+    if case['kind'] in (1, 2):
         return True
     return not case.get('malformed', False) and _removes_registered_only(case)
 
@@ -324,6 +406,22 @@ def canon(case, obs):
     sorted; implementation side is produced in that form"""
     if isinstance(obs, dict) or not isinstance(obs, list) or not obs:
         return obs
+    if case['kind'] == 2:
+        import c05
+        if isinstance(obs, list) and len(obs) == 2 and obs[0] == 1:
+            # QueueIO numbers nested payloads 1000 + 16 * arrival + k: an event whose callbacks perform >= 16
+            # actions makes payloads ambiguous (a harness artefact) -> such cases are not compared
+            worst = 0
+            for step in obs[1]:
+                per = {}
+                items = step['items'] if isinstance(step, dict) else \
+                    ([it for b in step[0] for it in b[4]] if isinstance(step, list) and len(step) == 6 else [])
+                for it in items:
+                    per[it[4][1]] = per.get(it[4][1], 0) + len(it[7])
+                worst = max([worst] + list(per.values()))
+            if worst >= 16:
+                return [1, 'payload-overflow']
+        return c05.canon(case, obs)
     if obs[0] == 1 and len(obs) == 3 and not (obs[2] and isinstance(obs[2][0], dict)):
         steps = []
         for blocks, res, w in obs[2]:
@@ -337,6 +435,15 @@ def canon(case, obs):
 # ------------------------------------------------------------------ implementation side
 class Obj(object):
     pass
+
+
+class FalsyObj(Obj):
+    """a model whose truth value is False (a container-like model that is empty)"""
+    def __bool__(self):
+        return False
+
+    def __len__(self):
+        return 0
 
 
 def _run(r):
@@ -383,6 +490,8 @@ def impl_multi(case):
 def _impl_multi(case):
     if case['kind'] == 1:
         return impl_two(case)
+    if case['kind'] == 2:
+        return impl_queue_lists(case)
     tr = flat._import_transitions()
     cname = case['cls']
     cls = flat.get_class(cname)
@@ -396,7 +505,8 @@ def _impl_multi(case):
     world.perform = lambda a: None
     n = case['nuniv']
     self_id = case['self_id']
-    objs = [None if k == self_id else Obj() for k in range(n)]
+    falsy = set(case.get('falsy', []))
+    objs = [None if k == self_id else (FalsyObj() if k in falsy else Obj()) for k in range(n)]
     cbnames = []
 
     def install(mod):
@@ -483,6 +593,9 @@ def _impl_multi(case):
             if k == 'add_model':
                 target = tr.Machine.self_literal if o[1] == self_id else objs[o[1]]
                 r = machine.add_model(target, initial=None if o[2] is None else 's%d' % o[2])
+            elif k == 'add_models':
+                targets = [tr.Machine.self_literal if x == self_id else objs[x] for x in o[1]]
+                r = machine.add_model(targets, initial=None if o[2] is None else 's%d' % o[2])
             elif k == 'remove_model':
                 r = machine.remove_model(objs[o[1]])
             elif k == 'state':
@@ -522,6 +635,88 @@ def _impl_multi(case):
             order_ok = 0          # the task table must be empty between calls
         out.append(dict(items=world.items, result=res, world=observe(), order_ok=order_ok))
     return [1, w0, out]
+
+
+def impl_queue_lists(case):
+    """like c05.impl_queue, but a run of remove actions of one callback is ONE remove_model([...]) call, and the
+    models alternate between plain and falsy objects"""
+    flat._import_transitions()
+    world = flat.World(case['env'], case['machine']['send'])
+    world.state_of = flat.state_int
+
+    class QModel(flat.Model):
+        pass
+
+    class QFalsy(flat.Model):
+        def __bool__(self):
+            return False
+    models = [(QFalsy() if k % 3 == 1 else QModel()) for k, _ in case['models']]
+    for (k, _), mod in zip(case['models'], models):
+        world.model_ids[id(mod)] = k
+    cname = case.get('cls', 'Machine')
+    c2 = dict(case)
+    c2['init'] = case['models'][0][1]
+    machine, _ = flat.build_machine(c2, world, cls=flat.get_class(cname), models=models,
+                                    extra_kwargs=dict(queued=True, **flat.class_kwargs(cname)))
+    for (k, s0), mod in zip(case['models'], models):
+        machine.set_state('s%d' % s0, mod)
+    st = dict(next_id=0, payload_id={}, act_k={}, nested=[], item=-1, j=0, buf=[])
+
+    def call_trigger(mod, e, payload):
+        tok = flat.Token(payload)
+        st['payload_id'][payload] = st['next_id']
+        st['next_id'] += 1
+        return mod.trigger('e%d' % e, tok, k=tok)
+
+    def perform(a):
+        idx = len(world.items) - 1
+        if st['item'] != idx:
+            st['item'], st['j'] = idx, 0
+        acts = world.items[idx][7]
+        j = st['j']
+        st['j'] += 1
+        cur = st['payload_id'].get(world.items[idx][4][1], 0)
+        k = st['act_k'].get(cur, 0)
+        st['act_k'][cur] = k + 1
+        if a[0] == 0:
+            r = call_trigger(models[a[1]], a[2], 1000 + 16 * cur + k)
+            st['nested'].append(r is True)
+            return
+        st['buf'].append(a[1])
+        if j + 1 < len(acts) and acts[j + 1][0] == 1:
+            return                                        # the run of removals continues
+        victims = []
+        for x in st['buf']:
+            if models[x] in machine.models and models[x] not in victims:
+                victims.append(models[x])
+        st['buf'] = []
+        if len(victims) == 1:
+            machine.remove_model(victims[0])
+        elif victims:
+            machine.remove_model(victims)
+    world.perform = perform
+    out = []
+    for (m, e, a) in case['history']:
+        world.items = []
+        st['nested'] = []
+        st['item'], st['buf'] = -1, []
+        try:
+            r = call_trigger(models[m], e, a)
+            res = [0, 1 if r is True else (0 if r is False else 7)]
+        except CaseTimeout:
+            raise
+        except BaseException as ex:  # noqa
+            res = [1, flat.classify_exc(ex)]
+        processed = []
+        for it in world.items:
+            pid = st['payload_id'].get(it[4][1], 999)
+            if not processed or processed[-1] != pid:
+                processed.append(pid)
+        out.append(dict(items=world.items, result=res,
+                        states=[[k, flat.state_int(mod)] for (k, _), mod in zip(case['models'], models)],
+                        models=[world.model_ids[id(x)] for x in machine.models],
+                        processed=processed, nested_true=1 if all(st['nested']) else 0))
+    return [1, out]
 
 
 def _owner(f, machines):
@@ -598,10 +793,12 @@ def oracle(case, obs):
             if own != [want]:
                 return 'two_machines: helper %s requested by machine %d is bound to %r' % (py_name(nm), want, own)
         return None
-    if obs[0] != 1:
-        return None
+    if case['kind'] == 2 or obs[0] != 1:
+        return None          # the queued stream is compared with Queue.v (C05_remove_exact) only
     lk, gr, hs, asy = class_flags(case['cls'])
     prev = obs[1]
+    if len(prev[0]) != len(set(prev[0])):
+        return 'a model listed twice in the constructor is registered twice'
     removed = set()
     for o, (items, res, w, order_ok) in zip(case['history'], obs[2]):
         models, per, ctx, graphs, queues = w
@@ -632,9 +829,22 @@ def oracle(case, obs):
                 return 'add_twice: adding a registered model changed something'
             if res != [0, 2]:
                 return 'add_twice: adding a registered model raised or returned a value (%r)' % (res,)
-        if k in ('state', 'trans', 'dispatch', 'add_model', 'remove_model', 'trigger'):
+        if len(models) != len(set(models)):
+            return 'a model is registered twice (%r)' % (models,)
+        if k == 'add_models':
+            for j in set(o[1]):
+                if j in pm and per[j] != pper[j]:
+                    return 'add_twice: a list add changed the already registered model %d' % j
+            if all(j in pm for j in o[1]):
+                if (models, per, ctx, graphs, queues) != (pm, pper, prev[2], prev[3], prev[4]) or res != [0, 2]:
+                    return 'add_twice: adding registered models (list) changed something or raised'
+            if res == [0, 2]:
+                for j in set(o[1]):
+                    if j not in pm and (j not in models or (o[2] is not None and per[j][0] != [o[2]])):
+                        return 'late_model: new model %d of a list add is not registered in its own initial state' % j
+        if k in ('state', 'trans', 'dispatch', 'add_model', 'add_models', 'remove_model', 'trigger'):
             for j in removed:
-                if (k in ('add_model', 'trigger') and o[1] == j):
+                if (k in ('add_model', 'trigger') and o[1] == j) or (k == 'add_models' and j in o[1]):
                     continue
                 if per[j] != pper[j]:
                     return 'removed: operation %s changed the removed model %d' % (k, j)
@@ -644,6 +854,10 @@ def oracle(case, obs):
                 return 'removed: a table still holds the model'
         if k == 'add_model' and o[1] in models:
             removed.discard(o[1])
+        if k == 'add_models':
+            for j in o[1]:
+                if j in models:
+                    removed.discard(j)
         if k in ('state', 'trans') and res == [0, 2]:
             # late models: every registered model has the helper, like every other registered model
             tabs = [per[j][1] for j in models]
@@ -670,11 +884,14 @@ def nontrivial(case, obs):
         return False
     if case['kind'] == 1:
         return obs[0] == 2 and _two_overlap(case)
+    if case['kind'] == 2:
+        import c05
+        return c05.nontrivial(case, obs)
     if obs[0] != 1:
         return False
     member_change = False
     for o, step in zip(case['history'], obs[2]):
-        if o[0] in ('add_model', 'remove_model'):
+        if o[0] in ('add_model', 'add_models', 'remove_model'):
             member_change = True
         if o[0] in ('state', 'trans') and member_change and step[2][0]:
             return True
@@ -694,8 +911,22 @@ def stats(case, obs, dist):
         if not _two_in_scope(case):
             inc('two_overlapping_events')
         return
+    if case['kind'] == 2:
+        inc('queue_stream_cases')
+        inc('queue_' + case['cls'])
+        if isinstance(obs, list) and obs[0] == 1:
+            for step in obs[1]:
+                if isinstance(step, list) and len(step[3]) < len(case['models']):
+                    inc('queue_calls_after_a_removal')
+        if any(sum(1 for a in r[2] if a[0] == 1) >= 2 for r in case['env']['bypos'].values()):
+            inc('queue_cases_with_list_removal')
+        return
     inc('cls_' + case['cls'])
     inc('queued_%s' % case['queued'])
+    if case.get('falsy'):
+        inc('cases_with_falsy_models')
+    if len(case['ctor_models']) != len(set(case['ctor_models'])):
+        inc('ctor_lists_with_a_repeated_model')
     if case['self_id'] is not None:
         inc('machine_is_a_model')
     if not isinstance(obs, list) or obs[0] != 1:
@@ -713,11 +944,18 @@ def stats(case, obs, dist):
                 inc('dispatch_false')
         if o[0] == 'add_model':
             inc('add_model_results_%d_models' % len(step[2][0]))
+        if o[0] == 'add_models' and len(o[1]) != len(set(o[1])):
+            inc('add_models_with_in_call_repetition')
         if o[0] == 'trigger' and step[0]:
             inc('trigger_with_items')
 
 
 def shrink_candidates(case):
+    if case['kind'] == 2:
+        import c05
+        for c in c05.shrink_candidates(case):
+            yield c
+        return
     if case['kind'] == 1:
         for i in range(len(case['calls'])):
             c = copy.deepcopy(case)
